@@ -321,3 +321,48 @@ func C14DeadSubscriber() {
 	}
 	sym.Reach("dead-subscriber-done")
 }
+
+// C14TwoProperties: an object with two properties; a client writes one while the service itself
+// updates the other (two accepted writes of DIFFERENT registers overlapping): afterwards both reads
+// return what was written: neither write is lost.
+func C14TwoProperties() {
+	sym.Schedules(false) // set-up under the default schedule
+	auth := &zzAuth{user: "u", token: "t"}
+	l := newZZListener()
+	srv, _ := StandAloneServer(l, auth, PrivateNamespace())
+	o := &zzObj{}
+	meta := object.MetaObject{Description: "zz", Properties: map[uint32]object.MetaProperty{
+		300: {Uid: 300, Name: "delay", Signature: "i"}, 301: {Uid: 301, Name: "gain", Signature: "i"}}}
+	o.front = NewBasicObject(o, meta, func(name string, data []byte) error { return nil })
+	service, _ := srv.NewService("props", o.front)
+	sid := service.ServiceID()
+	a := zzAuthConn(l, 1)
+	x, y := sym.I32("client-delay"), sym.I32("service-gain")
+	delay := zzValueBytes(value.String("delay"))
+	gain := zzValueBytes(value.String("gain"))
+	done := make(chan bool, 2)
+	sym.Schedules(true)
+	go func() {
+		a.inject(zzFrame(net.Call, sid, 1, 6, 30, append(append([]byte{}, delay...), zzValueBytes(value.Int(x))...)))
+		done <- true
+	}()
+	go func() {
+		sym.Assert(o.front.UpdateProperty(301, "i", zzLE32(uint32(y))) == nil, "two-properties/local-update-ok")
+		done <- true
+	}()
+	<-done
+	<-done
+	sym.Quiesce()
+	sym.Schedules(false)
+	out := zzRoundTrip(a, zzFrame(net.Call, sid, 1, 5, 31, delay))
+	sym.Assert(len(out) == 1 && out[0].Header.Type == net.Reply, "two-properties/client-write-lost")
+	if len(out) == 1 && out[0].Header.Type == net.Reply {
+		sym.Assert(sym.EqBytes(out[0].Payload, zzValueBytes(value.Int(x))), "two-properties/delay-value")
+	}
+	out = zzRoundTrip(a, zzFrame(net.Call, sid, 1, 5, 32, gain))
+	sym.Assert(len(out) == 1 && out[0].Header.Type == net.Reply, "two-properties/service-update-lost")
+	if len(out) == 1 && out[0].Header.Type == net.Reply {
+		sym.Assert(sym.EqBytes(out[0].Payload, zzValueBytes(value.Int(y))), "two-properties/gain-value")
+	}
+	sym.Reach("two-properties-done")
+}
